@@ -351,6 +351,19 @@ def _stab_check(desc):
     return fails, desc['count'] > 0, repr(got), data
 
 
+def _core_gen():
+    for machine in (62, 3, 40, 183, 8):
+        for cls in (64, 32):
+            for le in (True, False):
+                for kind in ('prpsinfo', 'ntfile0', 'ntfile1', 'ntfile3'):
+                    yield {'class': cls, 'data': le, 'e_type': 'ET_CORE', 'e_machine': machine, 'probe.name': 'CORE', 'probe.descriptor': kind}
+
+
+def _core_check(desc):
+    case = run_notes(core.NamedChooser(desc))
+    return case.fails, True, case.outcome, case.input
+
+
 def spaces(tier, seed):
     global SEED
     SEED = seed
@@ -359,5 +372,7 @@ def spaces(tier, seed):
         ChoiceSpace('note-extents', run_notes, k, rule='file type {ET_DYN, ET_CORE} x machine x count {2,0,1,5} x probe owner {GNU, none, CORE, 1/2/3/4/5-byte, embedded NULs, long} '
                     'x probe descriptor {raw 0/1/2/3/4/5/16/300 bytes, ABI tag (known/unknown OS), build id 0/1/20, gold version, property lists (0,1,3 properties, stack size 4/8, 12-byte data, unknown type), '
                     'prpsinfo, NT_FILE 0/1/3} x type override x final note {as is, header-only, name-only, unpadded length} x position; both views compared; non-trivial = at least one note'),
+        ListSpace('core-notes', _core_gen, _core_check, nparts=16, rule='core files: complete product machine {x86-64, i386, ARM, AArch64, MIPS} x class x byte order x {NT_PRPSINFO, NT_FILE with 0/1/3 mappings}, '
+                  'owner CORE (16-bit uid/gid on 32-bit ARM/i386): descriptor decoded field by field'),
         ListSpace('stabs', _stab_gen, _stab_check, nparts=8, rule='stab tables of 0/1/3/40 records with field boundary values, two file positions, sequential and interleaved iteration'),
     ]
